@@ -37,7 +37,7 @@ def seg(src_lines, node):
     return off(node.lineno, node.col_offset), off(node.end_lineno, node.end_col_offset)
 
 
-def mutants_of(src, fn):
+def mutants_of(src, fn, nested_contracted=None):
     """list of (description, new source) — text splices inside fn, line structure preserved"""
     lines = src.splitlines(keepends=True)
     out = []
@@ -49,8 +49,13 @@ def mutants_of(src, fn):
             text = text + '\n' * 0
         out.append(('L{} {}: `{}` -> `{}`'.format(node.lineno, what, old.strip()[:50], text.strip()[:50]), src[:a] + text + src[b:]))
 
-    doc = ast.get_docstring(fn)
+    skip = set()
+    for sub in ast.walk(fn):
+        if isinstance(sub, ast.FunctionDef) and sub is not fn and sub.name in (nested_contracted or ()):
+            skip |= {id(x) for x in ast.walk(sub)}       # nested functions under their own contract are mutated separately
     for n in ast.walk(fn):
+        if id(n) in skip:
+            continue
         if isinstance(n, ast.Compare) and len(n.ops) == 1 and type(n.ops[0]) in CMP:
             l = ast.get_source_segment(src, n.left)
             r = ast.get_source_segment(src, n.comparators[0])
@@ -122,7 +127,8 @@ def worker(rel, qual, index):
     srel, squal = contracts[(rel, qual)].get('source', (rel, qual))
     fn = repo.find(srel, squal)
     src = repo.module(srel)['src']
-    muts = mutants_of(src, fn)
+    nested = {q.split('.', 1)[1] for (r, q) in contracts if r == srel and q.startswith(squal + '.')}
+    muts = mutants_of(src, fn, nested)
     if index < 0:
         print(json.dumps({'n': len(muts), 'desc': [d for d, _ in muts]}))
         return
@@ -149,8 +155,10 @@ def worker(rel, qual, index):
     res = {'rel': rel, 'qual': qual, 'index': index, 'desc': desc}
     try:
         obs = []
+        no_exit = False
         for label, cv in pyrun.variants_of(c):
             obs += eng.verify(rel, qual, contract=cv, label=label)
+            no_exit = no_exit or (eng.exits['normal'] == 0 and not cv.get('never_returns'))
     except engine.Unsupported as e:
         res.update(verdict='degraded', why='unsupported: ' + str(e)[:150], t=time.time() - t0)
         print(json.dumps(res))
@@ -159,7 +167,7 @@ def worker(rel, qual, index):
         res.update(verdict='crash', why='{}: {}'.format(type(e).__name__, str(e)[:200]), t=time.time() - t0)
         print(json.dumps(res))
         return
-    if eng.exits['normal'] == 0 and not c.get('never_returns'):
+    if no_exit:
         res.update(verdict='killed-P', why='vacuity: no feasible normal exit', t=time.time() - t0)
         print(json.dumps(res))
         return
